@@ -26,6 +26,11 @@ class C05(PropBase):
             for _ in range(n):
                 s = self.concrete(rng, v, t)
                 opens = [i for i, (k, e) in enumerate(v.types[t]) if v.alternatives(e) is None]
+                if opens and rng.random() < 0.06:
+                    # a free value with a backslash: an ordinary character of a posix path component, not a separator
+                    segs = s.split('/')
+                    segs[rng.choice(opens)] = rng.choice(['old\\man', 'a\\', '\\b'])
+                    s = '/'.join(segs)
                 if opens and rng.random() < 0.15:
                     # a free value with the uri separator in it: such a Sid is written as a uri (type:string)
                     segs = s.split('/')
